@@ -79,6 +79,12 @@ CHECKS = {
             "every function, lengths and values vs reference and numpy module, models without parameters, nested 2-5-operand And/Or "
             "over all sign patterns.",
             "Gallina model of the functional jax convention + verified validators + jit/no-jit differential execution"),
+    "C20": ("Theorems (each substitution round preserves the meaning, so the symbolic rhs has the value of the derivatives' expressions; "
+            "a produced rhs is fully expanded; Jacobian entries are D of the expanded entries in the generated state order; D is the "
+            "derivative over the reals (Coquelicot) on the smooth fragment; computed: depth-21 chain refused by the former bound 20, "
+            "accepted by the repaired bound, as is depth 41) + correspondence: mirror's rhs_matrix / jacobian evaluated by the extracted "
+            "evaluator vs sympytools lambdified; direct: free symbols, values vs generated rhs, Jacobian vs central differences.",
+            "Gallina model of rhs_matrix with meaning-preservation theorem, D_sound over R + differential / finite-difference execution"),
 }
 
 def main():
